@@ -11,11 +11,15 @@ RULE = ("codecs: every format with a per-pixel loader is decoded on ALL byte val
         "two-byte words, a 17^3 (3-byte) / 9^4 (4-byte) grid plus random blocks; every writable format is encoded on the "
         "17^3 x 4 channel grid plus random pixels; model vs implementation byte for byte. mipmap chains: all power-of-two "
         "sizes up to 4096x4096. scale_down: all same/half size combinations up to 8x8, five filters. Frame indexing: all "
-        "(x, y) in [-w-2, w+2] x [-h-2, h+2] for sizes up to 8, get and set. whole files: random textures 1x1..16x16 (a few "
-        "up to 64x64), square and not, 1-3 frames, depth 1-4, cubemaps, versions 7.2-7.5 also saved as another version, "
-        "all writable formats for image and thumbnail, 0-3 resources, 0-3 particle sheet sequences; frames filled, partly "
-        "filled or cleared: VTF.save bytes vs model bytes, VTF.read vs model view incl. every frame's offset and pixels. "
-        "A case is non-trivial when it is not the all-default texture; distinct by content hash.")
+        "(x, y) in [-w-2, w+2] x [-h-2, h+2] for sizes up to 8, get and set. frame_size: 30 formats x 17^2 sizes; rescale_from "
+        "size check on 5^4 size pairs. whole files: random textures 1x1..16x16 (a few up to 64x64), square and not, 1-3 "
+        "frames, depth 1-4, cubemaps, objects of version 7.2-7.5 saved as 7.0-7.5, all writable formats for image and "
+        "thumbnail, 0-3 resources (raw / enum ids, inline / block data, arbitrary flag bytes), 0-3 (rarely 64) particle sheet "
+        "sequences in sheet version 0/1, frames filled (through copy_from bytes / Frame / other formats, fill, per-pixel "
+        "assignment), partly filled or cleared, optionally clear_mipmaps / compute_mipmaps(filter) before saving: VTF.save "
+        "bytes vs model bytes, VTF.read vs model view incl. every frame's offset and pixels; plus ~620 edited headers (every "
+        "value of both format fields, counts, flags, version, truncation). A case is non-trivial when it is not the "
+        "all-default texture; distinct by content hash.")
 TRUSTED = ["model: lean/Srctools/Model/C15.lean + C15File.lean; per-pixel codec expressions regenerated from "
            "_py_vtf_readwrite.py by tools/gen_vtf.py (symbolic execution over ast) and proved equal to the model's by decide",
            "floats are carried as float32 bit patterns (struct 'f' packing/unpacking is CPython's)",
